@@ -33,6 +33,7 @@ type Oblig struct {
 	Trivial bool
 	SMTSize int
 	TimeMul int // timeout multiplier
+	Cover   bool // vacuity guard: the hypotheses must be satisfiable (expected answer: sat)
 }
 
 type Frame struct {
@@ -92,6 +93,8 @@ type Exec struct {
 	segs            []schedSeg
 	schedMode       bool
 	strVals         map[string]string
+	coverCount      map[string]int
+	preFalse        bool
 }
 
 type schedSeg struct {
